@@ -210,15 +210,50 @@ type gateSettings struct {
 	mu      sync.Mutex
 	entries []chan struct{}
 	hs      proto4.HostSettings
+	credits int       // releaseNext calls that found nothing to release
+	next    int       // first entry not yet released by releaseNext
+	onEnter func(int) // called under mu when a handler reaches the gate
+	onExit  func(int) // called just before the handler returns
 }
 
 func (g *gateSettings) RHP4Settings() proto4.HostSettings {
 	g.mu.Lock()
 	ch := make(chan struct{})
+	k := len(g.entries)
 	g.entries = append(g.entries, ch)
+	if g.onEnter != nil {
+		g.onEnter(k)
+	}
+	if g.credits > 0 && g.next == k {
+		g.credits--
+		g.next++
+		close(ch)
+	}
 	g.mu.Unlock()
 	<-ch
+	g.mu.Lock()
+	if g.onExit != nil {
+		g.onExit(k)
+	}
+	g.mu.Unlock()
 	return g.hs
+}
+
+// releaseNext lets the oldest handler that is still gated return (or the next one to come).
+func (g *gateSettings) releaseNext() {
+	g.mu.Lock()
+	defer g.mu.Unlock()
+	for g.next < len(g.entries) {
+		ch := g.entries[g.next]
+		g.next++
+		select {
+		case <-ch: // already released
+		default:
+			close(ch)
+			return
+		}
+	}
+	g.credits++
 }
 
 func (g *gateSettings) numEntries() int { g.mu.Lock(); defer g.mu.Unlock(); return len(g.entries) }
